@@ -39,7 +39,7 @@ MUTANTS = [
     ('C02', 'supp/merged_dict.py', r"        for p in self\._dicts:\n            try:\n                return p\[key\]", "        for p in reversed(self._dicts):\n            try:\n                return p[key]", 'C02-R4'),
     # ---- C03
     ('C03', 'supp/nast.py', r"self\.make_flow\('try-else', \[body\]\)", "self.make_flow('try-else', [cur, body])", 'C03-R1'),
-    ('C03', 'supp/nast.py', r"eend = get_expr_end\(node\.value\)\n        for targets", "eend = np(node)\n        for targets", 'C03-R'),
+    ('C03', 'supp/nast.py', r"eend = get_expr_end\(node\.value\)\n        # the value is evaluated", "eend = np(node)\n        # the value is evaluated", 'C03-R'),
     ('C03', 'supp/scope.py', r"r\.get\(n, UndefinedName\(n\)\)", "r.get(n, None)", 'C03-R2'),
     ('C03', 'supp/scope.py', r"if len\(nrow\) == 1:", "if len(nrow) <= 2:", 'C03-R2'),
     ('C03', 'supp/nast.py', r"self\.make_flow\('else', \[cur\]\)", "self.make_flow('else', [cur, body])", 'C03-R1'),
@@ -98,7 +98,7 @@ MUTANTS = [
     ('C11', 'supp/nast.py', r"fh\.add_name\(AssignedName\(h\.name, np\(h\.body\[0\]\), np\(h\), h\.type\)\)", "fh.add_name(AssignedName(h.name, np(h.body[0]), np(h.body[0]), h.type))", 'C11-R1'),
     ('C11', 'supp/linter.py', r"name\.declared_at\[0\], name\.declared_at\[1\], flow", "name.location[0], name.location[1], flow", 'C11-R2'),
     ('C11', 'supp/scope.py', r"self\.args\.append\(ArgumentName\(\[ni\], n\.arg, self\.location, np\(n\), self\)\)", "self.args.append(ArgumentName([ni], n.arg, self.location, np(node), self))", 'C11-R1'),
-    ('C11', 'supp/nast.py', r"self\.flow\.add_name\(AssignedName\(name\.id, eend, np\(name\), node\.value\)\)\n        self\.generic_visit\(node\)\n\n\nextract", "self.flow.add_name(AssignedName(name.id, eend, eend, node.value))\n        self.generic_visit(node)\n\n\nextract", 'C11-R1'),
+    ('C11', 'supp/nast.py', r"self\.flow\.add_name\(AssignedName\(name\.id, eend, np\(name\), node\.value\)\)\n\n\nextract", "self.flow.add_name(AssignedName(name.id, eend, eend, node.value))\n\n\nextract", 'C11-R1'),
 
     ('C11', 'supp/nast.py', r"declared_at = self\.top\.find_id_loc\(name, start\)\n            self\.flow\.add_name\(ImportedName\(name, loc, declared_at, iname, None,", "declared_at = start\n            self.flow.add_name(ImportedName(name, loc, declared_at, iname, None,", 'C11-R3'),
     # ---- C12
